@@ -4,5 +4,6 @@ CONSTANTS
   Protocol = "atomic"
   SweepRecheck = TRUE
   ShareEnabled = TRUE
+  ReloadProtocol = "snapshot"
 INVARIANT Emit
 CHECK_DEADLOCK FALSE
